@@ -34,7 +34,13 @@ def forwards(call, names):
     return missing
 
 
-def rule_f1(repo, res, modname, extra_ctor_kwargs=()):
+def rule_f1(repo, res, modname):
+    """F1 on the outcome terms of the entry points (vsa.entryrules)"""
+    from .entryrules import rule_f1 as f1
+    return f1(repo, res, modname)
+
+
+def rule_f1_shape(repo, res, modname, extra_ctor_kwargs=()):
     """load/loadu/loads reach parser.parse with parser/grammar/decoder/**kwargs
     forwarded; dump writes exactly dumps(module, **kwargs); dumps returns
     encoder.encode(module)."""
